@@ -1,0 +1,47 @@
+//go:build verif
+// +build verif
+
+package plugin
+
+// Machine-checked contracts for gvc (see /verif/DESIGN.md). Comment-only file:
+// no executable code, excluded from every normal build.
+
+//@ spec plugin.smt2
+
+//@ contract (*serviceGenerator).Generate
+//@   props C16 C17
+//@   maypanic documented: using a closed handle panics
+//@   requires sg != nil && sg.handle != nil && sg.Running != nil && abool(sg.Running)
+//@   let g0 = genCalls(sg.ServiceGenerator)
+//@   modifies genCalls(sg.ServiceGenerator)
+//@   loop 1: invariant res != nil && forall(k, Str, visited(k) ==> !strContains(k, ".."))
+//@   ensures(once) genCalls(sg.ServiceGenerator) == g0 + 1
+//@   ensures(nodotdot) err == nil ==> result != nil && forall(k, Str, has(result.Files, k) ==> !strContains(k, ".."))
+
+//@ contract (*transportHandle).Close
+//@   props C16
+//@   requires h != nil && h.Running != nil
+//@   let b0 = byeCalls(h.Client)
+//@   let c0 = closeCalls(h.Transport)
+//@   let running = abool(h.Running)
+//@   modifies abool(h.Running), byeCalls(h.Client), closeCalls(h.Transport)
+//@   ensures(goodbyeonce) running ==> byeCalls(h.Client) == b0 + 1
+//@   ensures(idempotent) !running ==> byeCalls(h.Client) == b0 && closeCalls(h.Transport) == c0 && result == nil
+//@   ensures(closed) !abool(h.Running)
+//@   ensures(closetransport) running ==> closeCalls(h.Transport) == c0 || closeCalls(h.Transport) == c0 + 1
+
+//@ contract (*transportHandle).ServiceGenerator
+//@   props C16
+//@   maypanic documented: using a closed handle panics
+//@   requires h != nil && h.Running != nil && abool(h.Running)
+//@   modifies nothing
+//@   ensures(gated) !has(h.Features, api.FeatureServiceGenerator) ==> result == nil
+//@   ensures(shared) result != nil ==> typeis(result, *serviceGenerator) && result.(*serviceGenerator).Running == h.Running && result.(*serviceGenerator).handle == h
+
+//@ contract NewTransportHandle
+//@   props C16
+//@   ensures(handshake) err == nil ==> typeis(result, *transportHandle) && result.(*transportHandle) != nil
+//@   ensures(name) err == nil ==> lastHsName(result.(*transportHandle).Client) == name
+//@   ensures(version) err == nil ==> lastHsVersion(result.(*transportHandle).Client) == api.APIVersion
+//@   ensures(running) err == nil ==> result.(*transportHandle).Running != nil && abool(result.(*transportHandle).Running)
+//@   ensures(transport) err == nil ==> result.(*transportHandle).Transport == t && result.(*transportHandle).name == name
